@@ -1653,6 +1653,76 @@ fn replay_here(fam: &[Entry], v: &Value) -> (String, Vec<String>) {
     (canon(&(find(ty).probe)(&mut pkg, name)), lines)
 }
 
+/// Retrieve and call functions of a script in a child process (`c04 calls`):
+/// for each `(name, family entry)` the `Debug` rendering of what the call
+/// returned, `"crashed"` if the child died in it, `None` if the handle was not
+/// granted or the call was not made.
+fn calls_in_child(fam: &[Entry], src: &str, env: usize, calls: &[(String, usize)]) -> Vec<Option<String>> {
+    use std::io::Write;
+    use std::process::{Command, Stdio};
+    let mut out: Vec<Option<String>> = vec![None; calls.len()];
+    let mut from = 0usize;
+    for _ in 0..6 {
+        if from >= calls.len() {
+            break;
+        }
+        let input = json!({"script": src, "env": env,
+            "calls": calls[from..].iter().map(|(n, e)| json!({"name": n, "rust_type": fam[*e].show()})).collect::<Vec<_>>()});
+        let Ok(exe) = std::env::current_exe() else { break };
+        let Ok(mut child) = Command::new(exe).arg("calls").stdin(Stdio::piped()).stdout(Stdio::piped()).stderr(Stdio::null()).spawn() else { break };
+        if let Some(mut stdin) = child.stdin.take() {
+            let _ = stdin.write_all(input.to_string().as_bytes());
+        }
+        // the output is a few short lines: it fits the pipe, so waiting first cannot block the child
+        let start = std::time::Instant::now();
+        let mut timed_out = false;
+        loop {
+            match child.try_wait() {
+                Ok(Some(_)) => break,
+                Ok(None) if start.elapsed().as_secs() > 30 => {
+                    let _ = child.kill();
+                    timed_out = true;
+                    break;
+                }
+                Ok(None) => std::thread::sleep(std::time::Duration::from_millis(5)),
+                Err(_) => break,
+            }
+        }
+        let Ok(o) = child.wait_with_output() else { break };
+        let text = String::from_utf8_lossy(&o.stdout).to_string();
+        let mut started: Option<usize> = None;
+        let mut done = 0usize;
+        for l in text.lines() {
+            if let Some(i) = l.strip_prefix("CALL ").and_then(|x| x.parse::<usize>().ok()) {
+                started = Some(i);
+            } else if let Some(rest) = l.strip_prefix("RET ") {
+                let (i, v) = rest.split_once(' ').unwrap_or((rest, "-"));
+                if let Ok(i) = i.parse::<usize>() {
+                    if from + i < out.len() {
+                        out[from + i] = if v == "-" { None } else { Some(v.to_string()) };
+                    }
+                    done = i + 1;
+                    started = None;
+                }
+            }
+        }
+        match started {
+            // the child died (or hung) inside call number `i`
+            Some(i) if from + i < out.len() => {
+                out[from + i] = Some(if timed_out { "did not return".into() } else { "crashed".into() });
+                from += i + 1;
+            }
+            _ => {
+                if done == 0 {
+                    break;
+                }
+                from += done;
+            }
+        }
+    }
+    out
+}
+
 fn rt_ctors(r: &RT, out: &mut BTreeSet<&'static str>) {
     match r {
         RT::Leaf(_) => {}
@@ -1863,6 +1933,7 @@ fn run_script(fam: &[Entry], rts: &[Runtime<NoCtx>], drv: &mut Driver, rep: &mut
     let mut judged: Vec<Option<Judged>> = (0..n).map(|_| None).collect();
     let mut log: Vec<Req> = vec![];
     let mut answers_log: Vec<String> = vec![];
+    let mut to_call: Vec<(usize, String)> = vec![];
     for (round, k) in order {
         let pr = &pairs[k];
         let e = &fam[pr.entry];
@@ -1962,26 +2033,13 @@ fn run_script(fam: &[Entry], rts: &[Runtime<NoCtx>], drv: &mut Driver, rep: &mut
         }
         // A handle granted under the true signature of a filtermap whose payload types were
         // inferred from literals: the code behind it must have been compiled at that very
-        // signature (`TypeInfo::convert` defaults literal types on its own). Call it.
-        if round == 1 && real == Outcome::Ok && expected_ok {
-            if let (Some(call), Some(di)) = (e.call, pr.decl) {
+        // signature (`TypeInfo::convert` defaults literal types on its own). It is called
+        // after the requests, in a child process (a wrong signature is undefined behaviour).
+        if round == 1 && real == Outcome::Ok && expected_ok && e.call.is_some() {
+            if let Some(di) = pr.decl {
                 let d = &script.decls[di];
                 if let (true, Some(want)) = (d.ret.has_literal(), d.call_value(&cx)) {
-                    let got = std::panic::catch_unwind(std::panic::AssertUnwindSafe(|| call(&mut pkg, &pr.name))).unwrap_or(Some("panic".into()));
-                    rep.evaluations += 1;
-                    rep.hist("called", if got.as_deref() == Some(want.as_str()) { "returned the script's value" } else { "returned another value" });
-                    if got.as_deref() != Some(want.as_str()) && rep.impl_violations.len() < 200 {
-                        rep.violation(
-                            "a handle granted under the documented image of an inferred signature returns another value than the script computes (the function was compiled at another signature than the gate checked)",
-                            &format!("granted-signature-is-not-the-compiled-one:{}", d.label),
-                            json!({
-                                "seed": seed, "index": index, "env": cx.env, "script": script.src, "function": d.show(&cx),
-                                "name": pr.name, "rust_type": e.show(), "label": pr.label, "expected": "ok",
-                                "call": true, "expected_value": want, "returned": got, "real": real_s, "model": j.model,
-                                "history": [], "history_kind": "none",
-                            }),
-                        );
-                    }
+                    to_call.push((k, want));
                 }
             }
         }
@@ -2026,6 +2084,31 @@ fn run_script(fam: &[Entry], rts: &[Runtime<NoCtx>], drv: &mut Driver, rep: &mut
                 rep.sample(json!({"function": script.decls[pr.decl.unwrap()].show(&cx), "rust_type": e.show(), "label": pr.label, "real": real_s, "model": j.model,
                     "host_types": [format!("{} = Val<Foo>", cx.reg_path(0)), format!("{} = Val<Bar>", cx.reg_path(1))],
                     "redeclared_by_script": cx.shadow.iter().map(|s| s.0).collect::<Vec<_>>()}));
+            }
+        }
+    }
+    // the calls: every literal-payload script of the boundary stream, every fourth other script
+    if !to_call.is_empty() && (thorough || script.kind == "literal-payload" || index % 4 == 0) {
+        let reqs: Vec<(String, usize)> = to_call.iter().map(|(k, _)| (pairs[*k].name.clone(), pairs[*k].entry)).collect();
+        let got = calls_in_child(fam, &script.src, cx.env, &reqs);
+        for ((k, want), got) in to_call.iter().zip(got) {
+            let pr = &pairs[*k];
+            let d = &script.decls[pr.decl.unwrap()];
+            rep.evaluations += 1;
+            let same = got.as_deref() == Some(want.as_str());
+            rep.hist("called", if same { "returned the script's value" } else { "returned another value / crashed" });
+            rep.class(format!("called|{}|{}", d.label, if same { "same" } else { "other" }));
+            if !same && rep.impl_violations.len() < 200 {
+                rep.violation(
+                    "a handle granted under the documented image of an inferred signature does not return the value the script computes (the function was compiled at another signature than the one the gate checked)",
+                    &format!("granted-signature-is-not-the-compiled-one:{}", d.label),
+                    json!({
+                        "seed": seed, "index": index, "env": cx.env, "script": script.src, "function": d.show(&cx),
+                        "name": pr.name, "rust_type": fam[pr.entry].show(), "label": pr.label, "expected": "ok",
+                        "call": true, "expected_value": want, "returned": got, "real": "ok", "model": "ok",
+                        "history": [], "history_kind": "none",
+                    }),
+                );
             }
         }
     }
@@ -2135,6 +2218,27 @@ fn main() {
             }
             return;
         }
+        Some("calls") => {
+            // child of `calls_in_child`: {script, env, calls: [{name, rust_type}…]} on stdin
+            use std::io::{Read, Write};
+            let mut text = String::new();
+            std::io::stdin().read_to_string(&mut text).expect("stdin");
+            let v: Value = serde_json::from_str(&text).expect("calls json");
+            let fam = family();
+            let rt = runtime(v["env"].as_u64().unwrap_or(0) as usize);
+            let Ok(Ok(mut pkg)) = compile(v["script"].as_str().unwrap_or(""), &rt) else { return };
+            for (i, c) in v["calls"].as_array().map(|a| &a[..]).unwrap_or(&[]).iter().enumerate() {
+                let (name, ty) = (c["name"].as_str().unwrap_or(""), c["rust_type"].as_str().unwrap_or(""));
+                println!("CALL {i}");
+                let _ = std::io::stdout().flush();
+                let got = fam.iter().find(|e| e.show() == ty).and_then(|e| e.call).and_then(|call| {
+                    std::panic::catch_unwind(std::panic::AssertUnwindSafe(|| call(&mut pkg, name))).unwrap_or(Some("panicked".into()))
+                });
+                println!("RET {i} {}", got.as_deref().unwrap_or("-"));
+                let _ = std::io::stdout().flush();
+            }
+            return;
+        }
         Some("answer") => {
             // the answer of this (fresh) process to a replay description on stdin
             use std::io::Read;
@@ -2170,15 +2274,13 @@ fn main() {
             println!("real     : {real}");
             rep.evaluations = 1;
             if v["call"].as_bool() == Some(true) {
-                // a granted handle, called: compile again (the package above was consumed by the request)
-                let e = fam.iter().find(|e| e.show() == ty).expect("rust type in family");
-                let rt = runtime(v["env"].as_u64().unwrap_or(0) as usize);
-                let mut pkg = FileTree::test_file("c04.roto", v["script"].as_str().unwrap_or(""), 0).compile(&rt).map_err(|e| e.to_string()).expect("compiles");
-                let got = e.call.and_then(|c| std::panic::catch_unwind(std::panic::AssertUnwindSafe(|| c(&mut pkg, name))).unwrap_or(Some("panic".into())));
+                // a granted handle, called — in a child process
+                let ei = fam.iter().position(|e| e.show() == ty).expect("rust type in family");
+                let got = calls_in_child(&fam, v["script"].as_str().unwrap_or(""), v["env"].as_u64().unwrap_or(0) as usize, &[(name.to_string(), ei)]).pop().flatten();
                 let want = v["expected_value"].as_str().unwrap_or("?");
-                println!("called   : returned {} — the script computes {want}", got.as_deref().unwrap_or("(not granted)"));
+                println!("called   : {} — the script computes {want}", got.as_deref().unwrap_or("(not granted)"));
                 if got.as_deref() != Some(want) {
-                    rep.violation("replayed: the granted handle returns another value than the script computes", v["label"].as_str().unwrap_or("replay"), v.clone());
+                    rep.violation("replayed: the granted handle does not return the value the script computes", v["label"].as_str().unwrap_or("replay"), v.clone());
                 }
             }
             if (real == "ok") != expected_ok || real == "panic" {
